@@ -460,43 +460,62 @@ func ruleSeMapping(c *Ctx) {
 		c.Undecided("se-mapping", p.Pos(fn.Pos()), "no parity test of the code number in ReadSe")
 		return
 	}
-	// the returned value per side: through the result cell / phi
+	// the returned value per side: either one return of a value chosen by the parity test (phi), or one
+	// return per side (early-return form)
+	var oddVal, evenVal ssa.Value
 	var ret *ssa.Return
 	for _, b := range fn.Blocks {
-		if r, ok := b.Instrs[len(b.Instrs)-1].(*ssa.Return); ok {
-			ret = r
-		}
-	}
-	if ret == nil || len(ret.Results) == 0 {
-		c.Undecided("se-mapping", p.Pos(fn.Pos()), "no return value")
-		return
-	}
-	v := retValue(ret, 0)
-	phi, ok := v.(*ssa.Phi)
-	if !ok {
-		c.Undecided("se-mapping", p.InstrPos(ret), "result is not selected by the parity test: "+describeValue(p, v))
-		return
-	}
-	var oddVal, evenVal ssa.Value
-	for i, e := range phi.Edges {
-		pred := phi.Block().Preds[i]
-		onTrue := pred != test && (test.Succs[0] == pred || test.Succs[0].Dominates(pred)) && test.Succs[0] != phi.Block()
-		onFalse := pred != test && (test.Succs[1] == pred || test.Succs[1].Dominates(pred)) && test.Succs[1] != phi.Block()
-		if pred == test {
-			if test.Succs[0] == phi.Block() {
-				onTrue = true
-			} else {
-				onFalse = true
-			}
-		}
-		if onTrue == onFalse {
+		r, isRet := b.Instrs[len(b.Instrs)-1].(*ssa.Return)
+		if !isRet || len(r.Results) == 0 {
 			continue
 		}
-		if onTrue == oddOnTrue {
-			oddVal = e
-		} else {
-			evenVal = e
+		ret = r
+		v := retValue(r, 0)
+		side := 0 // 1 odd, 2 even
+		domConds(r, func(cond ssa.Value, taken bool) {
+			if ifi, ok := test.Instrs[len(test.Instrs)-1].(*ssa.If); ok && ifi.Cond == cond {
+				if taken == oddOnTrue {
+					side = 1
+				} else {
+					side = 2
+				}
+			}
+		})
+		switch side {
+		case 1:
+			oddVal = v
+		case 2:
+			evenVal = v
+		default:
+			phi, ok := v.(*ssa.Phi)
+			if !ok {
+				continue
+			}
+			for i, e := range phi.Edges {
+				pred := phi.Block().Preds[i]
+				onTrue := pred != test && (test.Succs[0] == pred || test.Succs[0].Dominates(pred)) && test.Succs[0] != phi.Block()
+				onFalse := pred != test && (test.Succs[1] == pred || test.Succs[1].Dominates(pred)) && test.Succs[1] != phi.Block()
+				if pred == test {
+					if test.Succs[0] == phi.Block() {
+						onTrue = true
+					} else {
+						onFalse = true
+					}
+				}
+				if onTrue == onFalse {
+					continue
+				}
+				if onTrue == oddOnTrue {
+					oddVal = e
+				} else {
+					evenVal = e
+				}
+			}
 		}
+	}
+	if ret == nil {
+		c.Undecided("se-mapping", p.Pos(fn.Pos()), "no return value")
+		return
 	}
 	if oddVal == nil || evenVal == nil {
 		c.Undecided("se-mapping", p.InstrPos(ret), "cannot attribute the result values to the parity edges")
